@@ -592,6 +592,23 @@ def gen_exclusive_family(rng, VENDOR):
     it = aclgen._it
     gens = []
     ng = rng.choice([2, 2, 3])
+    if rng.random() < 0.4:
+        # the overlap one level down: the same child rule under TEXTUALLY DIFFERENT parent rules that both match
+        # the block header (the children rule sets of all matching parents are merged, their per-generator
+        # parameter lists concatenated): each generator owns the child line
+        kid = rng.choice(["mtu *", "description ~", "mtu */[0-9]+/"])
+        line = "mtu 9000" if kid.startswith("mtu") else "description x y"
+        parents = [f"{base} *", row, f"{base} ~", f"{base} */[0-9]+/"]
+        rng.shuffle(parents)
+        same_flags = rng.random() < 0.7
+        for j in range(ng):
+            cd = [False] if same_flags else [rng.random() < 0.4]
+            items = [it(parents[j % len(parents)], kids=[it(kid, cd=cd)])]
+            tree = {row: {line: {}}}
+            if rng.random() < 0.3:
+                tree[f"{base} 2"] = {line: {}}
+            gens.append({"name": f"G{j}", "items": items, "prog": prog_of_tree(rng, tree)})
+        return gens
     for j in range(ng):
         items = []
         if j == 0 or rng.random() < 0.35:
